@@ -159,14 +159,16 @@ func (a *aug) run() {
 		})
 	}
 
-	// region of C02-outer-join-false-on-subquery (while listed): a LEFT/RIGHT join whose ON has a
-	// column-free conjunct, in a statement with a subquery. Besides the planning error recorded
-	// for C02 the same statements return values of the wrong column under some plans; the
-	// column-free conjuncts are removed.
-	if kf.Listed(idOuterSub) && gen.ConstConjunctInOuterOn(q) && a.hasSubquery() {
+	// region of C02-outer-join-false-on-subquery (while listed): a join whose ON has a column-free
+	// conjunct (the join, or its right side, is replaced by a column-less EmptyTable when the
+	// conjunct folds to FALSE), in a statement with a subquery (whose semi/anti join is planned
+	// from column sets). Besides the planning error recorded for C02 the same statements return
+	// values of the wrong column under some plans, and the constant may also sit in an INNER join
+	// under an outer join; the column-free conjuncts are removed.
+	if kf.Listed(idOuterSub) && a.hasSubquery() {
 		for i := range q.From {
 			f := &q.From[i]
-			if (f.Join == "LEFT" || f.Join == "RIGHT") && f.On != nil {
+			if f.On != nil {
 				var on gen.Expr
 				for _, c := range gen.Conjuncts(f.On) {
 					if gen.HasColumn(c) {
@@ -418,4 +420,18 @@ func (a *aug) hasSubquery() bool {
 		}
 	})
 	return found
+}
+
+// constConjunctInOn reports whether some ON clause has a conjunct that reads no column.
+func (a *aug) constConjunctInOn() bool {
+	for _, f := range a.q.From {
+		if f.On != nil {
+			for _, c := range gen.Conjuncts(f.On) {
+				if !gen.HasColumn(c) {
+					return true
+				}
+			}
+		}
+	}
+	return false
 }
